@@ -168,6 +168,15 @@ func (q *queue) processACK(seq uint8) bool {
 		return false
 	}
 
+	// A sequence number outside of the sequence space can never refer to a
+	// packet in the queue.
+	if seq >= q.cfg.s {
+		q.cfg.log.Tracef("Received ack %d outside of the sequence "+
+			"space. Ignoring.", seq)
+
+		return false
+	}
+
 	q.syncer.processACK(seq)
 
 	q.baseMtx.Lock()
@@ -228,6 +237,15 @@ func (q *queue) processNACK(seq uint8) (bool, bool) {
 	defer q.topMtx.RUnlock()
 
 	q.cfg.log.Tracef("Received NACK %d", seq)
+
+	// A sequence number outside of the sequence space can never refer to a
+	// packet in the queue.
+	if seq >= q.cfg.s {
+		q.cfg.log.Tracef("NACK seq %d is outside of the sequence "+
+			"space. Ignoring.", seq)
+
+		return false, false
+	}
 
 	q.syncer.processNACK(seq)
 
